@@ -114,19 +114,23 @@ SPEC = {
     "finding_key": finding_key,
     "panic_is_violation": True,
     "rule": "cases = (query, renaming): every Cypher text of the repository corpora (translation_cases/*.sql with their cypher_params, cypher/test/cases/*.json) and "
-            "generated queries (structured generator over MATCH/OPTIONAL MATCH/UNWIND/WITH/RETURN/ORDER BY/SKIP/LIMIT/quantifiers/paths/updates, 400 quick, 2x6000 thorough) "
+            "generated queries (structured generator over MATCH/OPTIONAL MATCH/UNWIND/WITH/RETURN/ORDER BY/SKIP/LIMIT/quantifiers/paths/updates, 400 quick, 2x4500 thorough) "
             "x 7 renaming kinds of ALL user variables+aliases and parameters applied to the parsed model: fresh names; translator names (n0 e0 s0 i0 pi0 ep0 path depth "
             "root_id next_id satisfied is_cycle _kind_idx, column names, ...); cross-namespace collisions (a parameter spelled like a variable and vice versa); SQL keywords; "
             "spellings differing only in case; permutation of the query's own names; probe (one variable takes the spelling of a generated identifier that occurs in the "
             "original translation); sys (once per query, plus 12 re-aliasing shapes): the query is translated first, the generated identifier every user variable / alias / "
             "parameter actually received is read off the scope trace (verif hook; fallback: identifiers in the SQL), and then each symbol alone AND all symbols at once are "
             "renamed to (i) their OWN generated identifier(s), (ii) the generated identifier of every other user binding (thorough: every identifier defined in the translation), "
-            "(iii) the next counter value(s) of all eight prefix classes, i.e. identifiers the translation generates later — about 30 renamings per query quick. Both models are translated by the real translate.Translate; SQL (outermost projection aliases and ORDER BY references to them masked) and "
+            "(iii) the next counter value(s) of all eight prefix classes, i.e. identifiers the translation generates later — about 30 renamings per query quick. escaped (variables / aliases take back-tick escaped names: double quotes and backslashes in every combination, control characters, U+200B, non-BMP runes, "
+            "63- and 64-byte names, SQL keywords and generated identifiers WITH back-ticks, comment / dollar-quote openers). TOKEN-LEVEL ORACLE on every pair that passes the "
+            "masked comparison: the two UNMASKED statements are lexed with a PostgreSQL lexer (harness/pglex.go: comments, '' strings, \"\" identifiers, $tag$, parameters, "
+            "operators) and must have the same token sequence, identifier tokens differing only as (value of x, value of the renamed x). Both models are translated by the real translate.Translate; SQL (outermost projection aliases and ORDER BY references to them masked) and "
             "result parameters must be equal and both must fail or succeed alike. Non-trivial = the original translates and at least two distinct user symbols were renamed; "
             "distinct = distinct (query, kind, seed) op lines (sha1)",
-    "expected_branches": ["class.ok", "kind.cross", "kind.translator", "kind.probe", "kind.sys", "sys_renamings", "translated_pairs_ge2_frames"],
+    "expected_branches": ["class.ok", "kind.cross", "kind.translator", "kind.probe", "kind.sys", "kind.escaped", "sys_renamings", "translated_pairs_ge2_frames"],
     "trusted_base": ["tools/extract/goext c06 (syntactic provenance of Scope access arguments; go/ast only)",
                      "the metamorphic oracle in harness/c06.go (renaming by reflection over the cypher model, alias masking on the pgsql AST)",
+                     "harness/pglex.go, a Go PostgreSQL lexer with the token classes of the Lean lexer of C04 (token-level half of the oracle)",
                      "the transcription Model/C06.lean of translate/tracking.go (tied op-by-op to the real Scope only when hooks/C06.patch is applied)"],
     "assumptions": ["Lean theorems are about the Scope and the seven patterns in which the translator uses it; the rest of the translator (22k lines) is covered by the metamorphic search only",
                     "renamings are applied to the parsed model (cypher.Variable / cypher.Parameter symbols incl. projection aliases); the parser's handling of unusual spellings is C07/C08"],
